@@ -294,6 +294,21 @@ impl Real {
         s
     }
 
+    /// `id:slot:total:off:pos:cap:datalen:dirty` of every open handle, by id
+    pub fn handle_states(&self) -> String {
+        if self.handles.is_empty() {
+            return "-".into();
+        }
+        self.handles
+            .iter()
+            .map(|(id, s)| {
+                let (slot, total, off, pos, cap, dl, _max, dirty) = s.verif_state();
+                format!("{}:{}:{}:{}:{}:{}:{}:{}", id, slot, total, off, pos, cap, dl, dirty as u8)
+            })
+            .collect::<Vec<_>>()
+            .join(";")
+    }
+
     /// Directory table as the library holds it in memory (hook H3), allocated slots only:
     /// `slot:name:type:color:left:right:child:len:bits:clsid:ctime:mtime` joined by `;`
     pub fn dirtable(&self) -> String {
@@ -349,6 +364,10 @@ pub enum RNode {
 pub struct RefModel {
     pub root: RNode,
     pub live: bool,
+    /// open handles: id -> (path of the stream, cursor); writes go straight to the node
+    pub handles: BTreeMap<u32, (Vec<String>, usize)>,
+    /// handles that may hold unflushed data (listings then show an unspecified length)
+    pub dirty: std::collections::BTreeSet<u32>,
 }
 
 pub fn valid_name(n: &str) -> bool {
@@ -378,7 +397,12 @@ fn ts_from(s: i64, n: u32) -> u64 {
 
 impl RefModel {
     pub fn new() -> RefModel {
-        RefModel { root: RNode::Storage { meta: Meta { clsid: [0; 16], bits: 0, ctime: 0, mtime: 0 }, kids: BTreeMap::new() }, live: false }
+        RefModel {
+            root: RNode::Storage { meta: Meta { clsid: [0; 16], bits: 0, ctime: 0, mtime: 0 }, kids: BTreeMap::new() },
+            live: false,
+            handles: BTreeMap::new(),
+            dirty: Default::default(),
+        }
     }
 
     fn find<'a>(&'a self, names: &[String]) -> Option<&'a RNode> {
@@ -453,16 +477,118 @@ impl RefModel {
                 self.live = true;
                 return Some("ok".into());
             }
-            ["reopen", _] => return Some("ok".into()),
+            ["reopen", _] => {
+                self.handles.clear();
+                self.dirty.clear();
+                return Some("ok".into());
+            }
             _ => {}
         }
         if !self.live {
             return None;
         }
+        if t[0].starts_with('h') {
+            return self.apply_handle(&t);
+        }
+        // while a handle may hold unflushed data, lengths in listings are not specified
+        if !self.dirty.is_empty() && matches!(t[0], "walk" | "ls" | "lsroot" | "walkfrom" | "entry") {
+            let _ = self.apply_inner(&t);
+            return None;
+        }
+        self.apply_inner(&t)
+    }
+
+    fn apply_handle(&mut self, t: &[&str]) -> Option<String> {
+        let id: u32 = t[1].parse().ok()?;
+        match t {
+            ["hopen", _, a] | ["hcreate", _, a] | ["hnew", _, a] => {
+                let path = dec(a);
+                let r = match t[0] {
+                    "hopen" => self.apply_inner(&["open", a]),
+                    "hcreate" => self.apply_inner(&["mkstream", a]),
+                    _ => self.apply_inner(&["mknew", a]),
+                }?;
+                if r.starts_with("ok") {
+                    let names = chain_of(&path)?;
+                    let len = match self.find(&names) {
+                        Some(RNode::Stream { data, .. }) => data.len(),
+                        _ => 0,
+                    };
+                    self.handles.insert(id, (names, 0));
+                    self.dirty.remove(&id);
+                    Some(format!("ok {}", len))
+                } else {
+                    Some(r)
+                }
+            }
+            ["hclose", _] => {
+                self.handles.remove(&id);
+                self.dirty.remove(&id);
+                Some("ok".into())
+            }
+            _ => {
+                let (names, cursor) = match self.handles.get(&id) {
+                    Some(x) => x.clone(),
+                    None => return Some("err nohandle".into()),
+                };
+                let Some(RNode::Stream { data, .. }) = self.find_mut(&names) else { return None };
+                let mut cur = cursor;
+                let out = match t {
+                    ["hwrite", _, h] => {
+                        let bs = unhex(h);
+                        let end = cur + bs.len();
+                        if data.len() < end {
+                            data.resize(end, 0);
+                        }
+                        data[cur..end].copy_from_slice(&bs);
+                        cur = end;
+                        if !bs.is_empty() {
+                            self.dirty.insert(id);
+                        }
+                        "ok".to_string()
+                    }
+                    ["hread", _, n] => {
+                        let n: usize = n.parse().unwrap();
+                        let end = (cur + n).min(data.len());
+                        let bs = data[cur..end].to_vec();
+                        cur = end;
+                        format!("ok {}", hex(&bs))
+                    }
+                    ["hseek", _, n] => {
+                        let n: usize = n.parse().unwrap();
+                        if n <= data.len() {
+                            cur = n;
+                            format!("ok {}", n)
+                        } else {
+                            "err invalidInput".to_string()
+                        }
+                    }
+                    ["hsetlen", _, n] => {
+                        let n: usize = n.parse().unwrap();
+                        data.resize(n, 0);
+                        cur = cur.min(n);
+                        "ok".to_string()
+                    }
+                    ["hflush", _] => {
+                        self.dirty.remove(&id);
+                        "ok".to_string()
+                    }
+                    ["hlen", _] => format!("ok {}", data.len()),
+                    _ => return None,
+                };
+                self.handles.insert(id, (names, cur));
+                Some(out)
+            }
+        }
+    }
+
+    fn apply_inner(&mut self, t: &[&str]) -> Option<String> {
+        {
+        }
         let path = if t.len() > 1 { dec(t[1]) } else { String::new() };
         let names = chain_of(&path);
         let boolean = |b: bool| Some(format!("ok {}", b));
-        Some(match t.as_slice() {
+        Some(match t {
             ["exists", _] => return boolean(names.map(|n| self.find(&n).is_some()).unwrap_or(false)),
             ["isstream", _] => return boolean(names.map(|n| matches!(self.find(&n), Some(RNode::Stream { .. }))).unwrap_or(false)),
             ["isstorage", _] => return boolean(names.map(|n| matches!(self.find(&n), Some(RNode::Storage { .. }))).unwrap_or(false)),
